@@ -1,5 +1,6 @@
-(* EngineSafetyRestartCex.v -- HeaderRestartMonotone (EngineSafetyHeader.v) is FALSE as stated:
-   the model's input is a list of N and nothing bounds the "bytes" by 256.  With a byte value
+(* EngineSafetyRestartCex.v -- HeaderRestartMonotone as ORIGINALLY stated in EngineSafetyHeader.v
+   (without byte bounds; restated below as HeaderRestartMonotone_unbounded) is FALSE:
+   the model's input is a list of N and nothing bounded the "bytes" by 256.  With a byte value
    >= 256 the 64-bit load path of load_raw (le64: an arithmetic sum) and the byte-wise path
    (load_bytes: a bitwise or) put different bits into the bit buffer.  Run A below (8 input
    bytes: first load on the 64-bit path) sees code length 4 for clc symbol 11, parses on and runs
@@ -12,6 +13,14 @@ From Verif Require Import EngineSafetyHeader.
 From Coq Require Import List NArith ZArith Bool Lia ZifyBool ZifyNat ZifyN.
 Import ListNotations.
 Open Scope N_scope.
+
+(* the original statement *)
+Definition HeaderRestartMonotone_unbounded : Prop :=
+  forall s s2, hdr_pre s -> tryDecodeHeader s = (s2, EEndInput) ->
+  forall n X s', dyn s' = dyn s2 -> tb s' = tb s2 ->
+    rd s' = mkBR (r_bits (rd s)) (r_len (rd s)) (firstn n (r_in (rd s)) ++ X)
+                 (N.of_nat (length (firstn n (r_in (rd s)))) + N.of_nat (length X)) ->
+    restart_ok s' X.
 
 Definition cex_bits : N := 2^2 + 2^13 + 2^14 + 2^15 + 2^23 + 2^27 + 2^29 + 2^30.
 Definition cex_in : list N := [256; 85; 85; 85; 85; 85; 85; 85].
@@ -40,7 +49,7 @@ Qed.
 Lemma cex_sB_fields : forall s2 br, dyn (set_rd s2 br) = dyn s2 /\ tb (set_rd s2 br) = tb s2 /\ rd (set_rd s2 br) = br.
 Proof. intros. split; [reflexivity|split; reflexivity]. Qed.
 
-Theorem HeaderRestartMonotone_false : ~ HeaderRestartMonotone.
+Theorem HeaderRestartMonotone_false : ~ HeaderRestartMonotone_unbounded.
 Proof.
   intros H.
   pose proof (H cex_sA (fst (tryDecodeHeader cex_sA)) cex_pre) as H1.
